@@ -179,11 +179,20 @@ func TestVerif_C26(t *testing.T) {
 				res.Problem("history %d: load snaps: %v", seed, err)
 				break
 			}
+			if len(ids) == 0 {
+				res.Problem("history %d step %d: no snapshot left before %v (previous ops %v)", seed, step, o, ops[:step])
+				break
+			}
 			target := ids[r.Intn(len(ids))]
 			// fault choice for this step
 			fk := []string{"none", "none", "fail", "die", "fail-after-effect", "loadfail"}[r.Intn(6)]
 			if o.Kind == "repair-forget-all" && (r.Intn(2) == 0 || o.Arg == "!") {
 				fk = "loadfail"
+			}
+			if o.Kind == "repair-forget" && fk == "loadfail" {
+				// `repair snapshots --forget <id>` removes a snapshot file it was given by name and cannot load:
+				// that is its documented job, not a loss
+				fk = "none"
 			}
 			k := 1 + r.Intn(4)
 			base := e.store.NumMut()
